@@ -98,6 +98,7 @@ var alphabet = map[string]docT{
 	"K":   {"n": 1.5, "s": "k"},                                                                                                // non-integral value in an INTEGER field (part A only)
 	"L":   {"n": 9223372036854775808.0, "s": "l"},                                                                              // 2^63 in an INTEGER field (part A only)
 	"M":   {"o.x": 3.0, "s": "m"},                                                                                              // literal dotted key: not the nested path
+	"N":   {"n": 1.0, "s": "r", "b": true},                                                                                     // collides with A on n only, with R1 on s only (composite unique index)
 	"R1":  {"n": 5.0, "s": "r", "d": 2.5, "o": obj{"x": 7.0}},                                                                  // replacement documents
 	"R2":  {"n": 1.0, "s": "q", "b": false},
 	"BAD": {"n": "str"},
@@ -728,6 +729,7 @@ func stateGrammar(dom map[string][]any) []item {
 var configs = []*config{
 	{Name: "ABDH", Depth: [2]int{3, 4}, Docs: []string{"A", "B", "D", "H"}, Many: [][]string{{"A", "B"}, {"H", "A"}}, RepQ: atom{"s", EQ, "a"}, DelQ: atom{"n", EQ, 1.0}},
 	{Name: "ACEG", Depth: [2]int{3, 3}, Docs: []string{"A", "C", "E", "G"}, Many: [][]string{{"A", "C"}, {"E", "E"}}, RepQ: atom{"n", EQ, 1.0}, DelQ: atom{"s", EQ, "a"}},
+	{Name: "ANED", Depth: [2]int{3, 3}, Docs: []string{"A", "N", "E", "D"}, Many: [][]string{{"A", "N"}, {"E", "E"}}, RepQ: atom{"n", EQ, 1.0}, DelQ: atom{"s", EQ, "r"}},
 	{Name: "DFIJ", Depth: [2]int{2, 3}, Docs: []string{"D", "F", "I", "J"}, Many: [][]string{{"D", "F"}, {"I", "I"}}, RepQ: atom{"b", EQ, false}, DelQ: atom{"o.x", EQ, 0.0}},
 	{Name: "AEHM", Depth: [2]int{0, 3}, Docs: []string{"A", "E", "H", "M"}, Many: [][]string{{"A", "E"}, {"H", "H"}}, RepQ: atom{"o.x", EQ, 7.0}, DelQ: atom{"b", EQ, true}},
 	{Name: "BCGJ", Depth: [2]int{0, 3}, Docs: []string{"B", "C", "G", "J"}, Many: [][]string{{"B", "C"}, {"G", "G"}}, RepQ: atom{"s", EQ, "a\nb"}, DelQ: atom{"n", EQ, 1.0}},
@@ -752,8 +754,9 @@ type H struct {
 	st      *store.ImmuStore
 	e       *document.Engine
 	twins   []*coll
-	cu      *coll
+	cu, cu2 *coll // UNIQUE index on s / composite UNIQUE index on (n, s)
 	tm, um  *model
+	um2     *model
 	rec     bool // record violations (last operation and sweep only)
 	found   []found
 	stop    bool
@@ -811,7 +814,7 @@ func finish(rule string, exhaustive bool) {
 }
 
 func newH(cf *config) *H {
-	h := &H{dir: getDir(), tm: &model{}, um: &model{}, stats: map[string]int64{}}
+	h := &H{dir: getDir(), tm: &model{}, um: &model{}, um2: &model{}, stats: map[string]int64{}}
 	var err error
 	if h.st, err = store.Open(h.dir, storeOpts()); err != nil {
 		panic(err)
@@ -832,6 +835,7 @@ func newH(cf *config) *H {
 	h.twins = []*coll{mk("c_plain", nil), mk("c_ix", all), mk("c_late", nil), mk("c_mid", nil)}
 	h.twins[1].indexed = true
 	h.cu = mk("c_u", []*protomodel.Index{{Fields: []string{"s"}, IsUnique: true}})
+	h.cu2 = mk("c_u2", []*protomodel.Index{{Fields: []string{"n", "s"}, IsUnique: true}})
 	return h
 }
 
@@ -867,30 +871,37 @@ func (h *H) createIndexes(cl *coll) []error {
 	return errs
 }
 
-// uniqueVerdict: may `news` (values of s of the new contents) be written while the live documents in `others` stay?
-func uniqueVerdict(news []docT, others []*mdoc) tri {
-	seen := map[string]bool{}
-	nulls := 0
-	for _, d := range others {
-		if v, ok := fieldOf(d.cur(), "s"); ok {
-			seen[v.(string)] = true
-		} else {
-			nulls++
+// uniqueVerdict: may `news` (the new contents) be written while the live documents in `others` stay, under a UNIQUE
+// index on `flds`? Two documents are duplicates when they agree on every indexed field; when the agreeing tuple has
+// a missing / null field the property does not say whether they are duplicates (unk).
+func uniqueVerdict(news []docT, others []*mdoc, flds []string) tri {
+	keyOf := func(d docT) (string, bool) {
+		k, null := "", false
+		for _, f := range flds {
+			if v, ok := fieldOf(d, f); ok {
+				k += fmt.Sprintf("|%T:%v", v, v)
+			} else {
+				k += "|∅"
+				null = true
+			}
 		}
+		return k, null
+	}
+	seen := map[string]bool{}
+	for _, d := range others {
+		k, _ := keyOf(d.cur())
+		seen[k] = true
 	}
 	res := yes
 	for _, d := range news {
-		if v, ok := fieldOf(d, "s"); ok {
-			if seen[v.(string)] {
+		k, null := keyOf(d)
+		if seen[k] {
+			if !null {
 				return no
 			}
-			seen[v.(string)] = true
-		} else {
-			if nulls > 0 {
-				res = unk // two documents without s: the property does not say whether they are duplicates
-			}
-			nulls++
+			res = unk
 		}
+		seen[k] = true
 	}
 	return res
 }
@@ -903,7 +914,8 @@ func errStr(err error) string {
 }
 
 // apply executes one operation on a group of collections sharing one model.
-func (h *H) apply(op opDef, m *model, cs []*coll, unique bool) {
+func (h *H) apply(op opDef, m *model, cs []*coll, uniqFlds []string) {
+	unique := len(uniqFlds) > 0
 	grp := cs[0].Name
 	if len(cs) > 1 {
 		grp = "twins"
@@ -1002,7 +1014,7 @@ func (h *H) apply(op opDef, m *model, cs []*coll, unique bool) {
 	}
 	uniq := yes
 	if unique && expect == yes && len(news) > 0 {
-		uniq = uniqueVerdict(news, liveOthers())
+		uniq = uniqueVerdict(news, liveOthers(), uniqFlds)
 		expect = uniq
 	}
 	// run on every collection of the group
@@ -1591,15 +1603,20 @@ func runNode(cf *config, path []int, shard, nshards int, only []query) (fs []fou
 	h = newH(cf)
 	defer h.close()
 	if p := lib.Catch(func() {
-		stateKey := func() string { return fmt.Sprintf("%s#%s#%v", h.tm.key(), h.um.key(), h.twins[3].indexed) }
+		stateKey := func() string {
+			return fmt.Sprintf("%s#%s#%s#%v", h.tm.key(), h.um.key(), h.um2.key(), h.twins[3].indexed)
+		}
 		before := ""
 		for k, o := range path {
 			h.rec = k == len(path)-1 || cf == cfgA // part A has no prefix histories: every operation is checked here
 			before = stateKey()
 			op := cf.ops[o]
-			h.apply(op, h.tm, h.twins, false)
+			h.apply(op, h.tm, h.twins, nil)
 			if op.Kind < kAddIx {
-				h.apply(op, h.um, []*coll{h.cu}, true)
+				h.apply(op, h.um, []*coll{h.cu}, []string{"s"})
+				if !h.stop {
+					h.apply(op, h.um2, []*coll{h.cu2}, []string{"n", "s"})
+				}
 			}
 			if h.stop {
 				return
@@ -1611,7 +1628,7 @@ func runNode(cf *config, path []int, shard, nshards int, only []query) (fs []fou
 				h.rep("index-op", "late-index field="+fields[i].Name, "CreateIndex on the populated collection: "+e.Error())
 			}
 		}
-		gs := []group{{h.tm, h.twins}, {h.um, []*coll{h.cu}}}
+		gs := []group{{h.tm, h.twins}, {h.um, []*coll{h.cu}}, {h.um2, []*coll{h.cu2}}}
 		items := cf.items
 		if only != nil {
 			items = nil
@@ -1645,7 +1662,7 @@ func runNode(cf *config, path []int, shard, nshards int, only []query) (fs []fou
 		h.found = append(h.found, found{Class: "panic", Detail: p})
 		h.stop = true
 	}
-	return h.found, h.stop, fmt.Sprintf("%s#%s#%v", h.tm.key(), h.um.key(), h.twins[3].indexed), h
+	return h.found, h.stop, fmt.Sprintf("%s#%s#%s#%v", h.tm.key(), h.um.key(), h.um2.key(), h.twins[3].indexed), h
 }
 
 // violate forwards to the framework; C19_GREP=<substring> prints matching violations in full (development aid).
